@@ -64,27 +64,52 @@ def _item_cond(v, what, cls=None):
 
 
 def _is_item(a):
-    return isinstance(a, tuple) and a[0] == "call" and a[1] == "queue.pop"
+    return isinstance(a, tuple) and a[0] == "call" and isinstance(a[1], str) \
+        and a[1].rsplit(".", 1)[-1] in ("pop", "popleft")
 
 
 def _flattened(ctx, model, fname, cls, neutral, annihilator):
     m, fn = model.func(f"{PRIM}:{fname}")
     loc = m.loc(fn)
+    from ..summary import facts_of
+    fn = model.inlined(fn)
     pss = summarize(fn, plain=True, loop_mode="01")
+    # roles: the work list is what the while loop tests, the result list is
+    # the one the popped item is appended to
+    wl = [w for w in ast.walk(fn) if isinstance(w, ast.While)]
+    if len(wl) != 1:
+        raise AnalysisError(f"{fname}: work-list loop not recognised")
+    QUEUE = None
+    for n_ in ast.walk(wl[0].test):
+        if isinstance(n_, ast.Name):
+            QUEUE = n_.id
+    DONE = None
+    for ps in pss:
+        for e in ps.events:
+            if e.kind == "call" and e.name.endswith(".append") and e.args and \
+                    _is_item(e.args[0]):
+                DONE = e.name[:-len(".append")]
+    if QUEUE is None or DONE is None:
+        raise AnalysisError(f"{fname}: work list / result list not recognised")
     n_append = n_requeue = n_annih = 0
     exits = set()
     for ps in pss:
         facts = {}
-        for _, pol, v in ps.conds:
-            k = _item_cond(v, fname, cls)
-            if k:
-                facts[k] = pol
+        for _, pol0, v0 in ps.conds:
+            for v, pol in facts_of(v0, pol0) if isinstance(v0, tuple) else ():
+                k = _item_cond(v, fname, cls)
+                if k:
+                    facts[k] = pol
         appends = [e for e in ps.events if e.kind == "call"
-                   and e.name == "done.append"]
-        requeues = [it for it in ps.items if it[0] == "stmt" and isinstance(
-            it[1], (ast.AugAssign, ast.Assign)) and "queue" in ast.unparse(
+                   and e.name == f"{DONE}.append"]
+        requeues = [it for it in ps.items if it[0] == "stmt" and ((isinstance(
+            it[1], (ast.AugAssign, ast.Assign)) and QUEUE in ast.unparse(
             it[1].targets[0] if isinstance(it[1], ast.Assign) else it[1].target)
-            and "children" in ast.unparse(it[1].value)]
+            and "children" in ast.unparse(it[1].value)) or (
+            isinstance(it[1], ast.Expr) and isinstance(it[1].value, ast.Call)
+            and ast.unparse(it[1].value.func) in (f"{QUEUE}.extend",
+                                                  f"{QUEUE}.extendleft")
+            and "children" in ast.unparse(it[1].value)))]
         for e in appends:
             n_append += 1
             need = {"zero": False, "same-class": False}
@@ -127,12 +152,19 @@ def _flattened(ctx, model, fname, cls, neutral, annihilator):
         # exits after the loop
         if ps.term == "return" and not (facts.get("zero") is True
                                         and annihilator is not None):
+            dval = ps.env.get(DONE)
             lens = {}
-            for _, pol, v in ps.conds:
-                if isinstance(v, tuple) and v[0] == "compare" and \
-                        v[1] == ("Eq",) and v[2][0] == "len" and \
-                        v[3][0][0] == "const":
-                    lens[v[3][0][1]] = pol
+            for _, pol0, v0 in ps.conds:
+                if not isinstance(v0, tuple):
+                    continue
+                for v, pol in facts_of(v0, pol0):
+                    if not isinstance(v, tuple):
+                        continue
+                    if v[0] == "compare" and v[1] in (("Eq",), ("NotEq",)) and \
+                            v[2] == ("len", dval) and v[3][0][0] == "const":
+                        lens[v[3][0][1]] = pol if v[1] == ("Eq",) else not pol
+                    if v == dval or v == ("len", dval):
+                        lens[0] = not pol      # truthiness of the list
             rv = ps.retval
             if lens.get(0) is True:
                 exits.add("empty")
@@ -142,22 +174,25 @@ def _flattened(ctx, model, fname, cls, neutral, annihilator):
                        f"neutral element is {neutral}")
             elif lens.get(1) is True:
                 exits.add("single")
-                ok = rv[0] in ("index", "anyof", "call") or rv[0] == "elem"
-                ok = "done" in str(ps.items[-1][1].value.value.id) if isinstance(
-                    ps.items[-1][1].value, ast.Subscript) and isinstance(
-                    ps.items[-1][1].value.value, ast.Name) else False
+                ok = rv[0] == "index" and rv[1] == dval
                 ctx.ob(f"P/{fname}/single-result", ok, loc,
                        "one item left -> the item itself" if ok else
                        f"{fname}: with one item left the item is not returned "
                        "as is")
             elif lens.get(0) is False and lens.get(1) is False:
                 exits.add("many")
-                src = ast.unparse(ps.items[-1][1].value).replace(" ", "")
-                ok = src == f"{cls}(tuple(done))"
+                ctor = rv[4] if rv[0] == "call" and len(rv) >= 5 else (
+                    ("global", rv[1]) if rv[0] == "call" else None)
+                tup = rv[2][0] if rv[0] == "call" and len(rv[2]) == 1 else None
+                as_tuple = tup is not None and (
+                    tup == dval or (dval is not None and dval[0] in ("lit", "seq")
+                                    and tup[0] == dval[0]
+                                    and tup[2:] == dval[2:]))
+                ok = ctor == ("global", cls) and as_tuple
                 ctx.ob(f"P/{fname}/nary-result", ok, loc,
                        f"several items -> {cls}(tuple(done))" if ok else
                        f"{fname}: several items are not returned as "
-                       f"{cls}(tuple(done))")
+                       f"{cls}(tuple(<result list>))")
     ctx.ob(f"P/{fname}/exits", exits == {"empty", "single", "many"}, loc,
            f"exits {sorted(exits)}" if exits == {"empty", "single", "many"} else
            f"{fname} lacks result exits {sorted({'empty', 'single', 'many'} - exits)}")
@@ -242,44 +277,76 @@ def _fold(ctx, model):
         raise AnalysisError("ConstantFoldingMapperBase.fold not found")
     loc = base.module.loc(mem.node)
     pss = summarize(mem.node, loop_mode="01", node_param="expr")
+    from ..summary import facts_of
+    fnode = mem.node
+    # roles of the local containers, from where they end up
+    U = lambda n: ast.unparse(n).replace(" ", "")       # noqa: E731
+    loops_ = [w for w in ast.walk(fnode) if isinstance(w, ast.While)
+              and isinstance(w.test, ast.Name)]
+    if len(loops_) != 1:
+        raise AnalysisError("fold(): work-list loop not recognised")
+    QUEUE = loops_[0].test.id
+    CONSTS = NONCONSTS = None
+    for c in ast.walk(fnode):
+        if isinstance(c, ast.Call) and U(c.func).split(".")[-1] == "reduce" and \
+                len(c.args) >= 2 and isinstance(c.args[1], ast.Name):
+            CONSTS = c.args[1].id
+        if isinstance(c, ast.Starred) and isinstance(c.value, ast.Name) and \
+                isinstance(c.ctx, ast.Load):
+            NONCONSTS = c.value.id
+    if CONSTS is None or NONCONSTS is None:
+        raise AnalysisError("fold(): constants / non-constants lists not "
+                            "recognised")
     child = None
     seen = set()
     for ps in pss:
         facts = {}
-        for _, pol, v in ps.conds:
-            if not isinstance(v, tuple):
+        for _, pol0, v0 in ps.conds:
+            if not isinstance(v0, tuple):
                 continue
-            if v[0] == "call" and v[1] == "isinstance" and v[2][0][0] == "rec":
-                facts["same-class"] = pol
-                facts["klass"] = v[2][1]
-            if v[0] == "call" and v[1] == "self.is_constant" and \
-                    v[2][0][0] == "rec":
-                facts["constant"] = pol
-            if v[0] == "compare" and v[1] == ("Is",) and v[3][0] == ("const",
-                                                                     None) \
-                    and v[2][0] == "call" and v[2][1] == "self.evaluate":
-                facts["eval-failed"] = pol
+            for v, pol in facts_of(v0, pol0):
+                if not isinstance(v, tuple):
+                    continue
+                if v[0] == "call" and v[1] == "isinstance" and \
+                        v[2][0][0] == "rec":
+                    facts["same-class"] = pol
+                    facts["klass"] = v[2][1]
+                if v[0] == "call" and v[1] == "self.is_constant" and \
+                        v[2][0][0] == "rec":
+                    facts["constant"] = pol
+                if v[0] == "compare" and v[1] in (("Is",), ("IsNot",)) and \
+                        v[3][0] == ("const", None) \
+                        and v[2][0] == "call" and v[2][1] == "self.evaluate":
+                    facts["eval-failed"] = pol if v[1] == ("Is",) else not pol
         ca = [e for e in ps.events if e.kind == "call"
-              and e.name == "constants.append"]
+              and e.name == f"{CONSTS}.append"]
         na = [e for e in ps.events if e.kind == "call"
-              and e.name == "nonconstants.append"]
+              and e.name == f"{NONCONSTS}.append"]
         in_loop = any(it[0] == "cond" and isinstance(it[1], ast.Name)
-                      and it[1].id == "queue" and it[2] for it in ps.items)
+                      and it[1].id == QUEUE and it[2] for it in ps.items)
         if not in_loop:
             continue
         recs = [e for e in ps.events if e.kind == "rec"]
         ok_rec = len(recs) == 1 and recs[0].arg[0] == "call" and \
-            recs[0].arg[1] == "queue.pop"
+            recs[0].arg[1] == f"{QUEUE}.pop"
         ctx.ob("F/fold/every-child-mapped", ok_rec, loc,
                "every queued child is mapped exactly once" if ok_rec else
                "fold() does not map each queued child exactly once")
         if facts.get("same-class") is True:
             seen.add("splice")
             st = [it[1] for it in ps.items if it[0] == "stmt" and isinstance(
-                it[1], ast.Assign) and ast.unparse(it[1].targets[0]) == "queue"
+                it[1], ast.Assign) and ast.unparse(it[1].targets[0]) == QUEUE
                 and "children" in ast.unparse(it[1].value)]
-            ok = bool(st) and ast.unparse(st[-1].value).replace(" ", "") == \
-                "list(child.children)+queue" and not ca and not na
+            ok = False
+            if st and not ca and not na:
+                v_ = st[-1].value
+                # list(<child>.children) + queue  /  [*<child>.children, *queue]
+                src_ = U(v_)
+                ok = (isinstance(v_, ast.BinOp) and isinstance(v_.op, ast.Add)
+                      and U(v_.right) == QUEUE and ".children" in U(v_.left)
+                      and QUEUE not in U(v_.left)) or (
+                    src_.startswith("[*") and src_.endswith(f",*{QUEUE}]")
+                    and ".children" in src_)
             ctx.ob("P/fold/splice-in-front", ok, loc,
                    "children of a nested same-class node are spliced in front of "
                    "the queue (order preserved)" if ok else
